@@ -302,7 +302,7 @@ class TrajectoryCalc:
 
         distance_feet = distance >> Distance.Foot  # no need convert it twice
         zero_distance = math.cos(self.look_angle) * distance_feet
-        height_at_zero = math.sin(self.look_angle) * distance_feet
+        look_tangent = math.tan(self.look_angle)
 
         iterations_count = 0
         zero_finding_error = _cZeroFindingAccuracy * 2
@@ -311,6 +311,8 @@ class TrajectoryCalc:
             # Check height of trajectory at the zero distance (using current self.barrel_elevation)
             t = self._integrate(shot_info, zero_distance, zero_distance, TrajFlag.NONE)[0]
             height = t.height >> Distance.Foot
+            # the sample may lie up to one step beyond the zero distance: compare it with the sight line where it is
+            height_at_zero = look_tangent * (t.distance >> Distance.Foot)
             zero_finding_error = math.fabs(height - height_at_zero)
             if zero_finding_error > _cZeroFindingAccuracy:
                 # Adjust barrel elevation to close height at zero distance
